@@ -65,6 +65,11 @@ static void blk_sign(void) {
 			static uint8_t body[8000], seq[8100], ex[8200], ci[8300]; size_t bl = (size_t)((MSG + o[nk - 1]) - sd); memcpy(body, sd, bl); body[bl++] = 0x31; body[bl++] = 0x00; size_t ql = der_put_tlv(seq, 0x30, body, bl); size_t el = der_put_tlv(ex, 0xa0, seq, ql);
 			/* outer: SEQ { contentType OID (copied from the original), [0] ... } */ der_cur c = { MSG, ml }; int tag; const uint8_t *v; size_t vl; der_tlv(&c, &tag, &v, &vl, NULL); der_cur in = { v, vl }; const uint8_t *ov; size_t ol2, oh; const uint8_t *ostart = in.p; der_tlv(&in, &tag, &ov, &ol2, &oh); size_t oidl = oh + ol2; static uint8_t ob[8400]; memcpy(ob, ostart, oidl); memcpy(ob + oidl, ex, el); size_t cil = der_put_tlv(ci, 0x30, ob, oidl + el);
 			int ct; const uint8_t *cc, *certs, *crls, *sis; size_t cl, certl, crll, sil; int r = cms_verify(ci, cil, NULL, 0, NULL, 0, &ct, &cc, &cl, &certs, &certl, &crls, &crll, &sis, &sil); if (r == 1) vh_viol("C16:sign:zero-signer-infos-verifies", "\"cms\":\"%s\"", vh_hex(ci, cil > 120 ? 120 : cil));
+			/* second zero-signer form: the signerInfos field left out entirely (SignedData ends after certificates) */
+			bl = (size_t)((MSG + o[nk - 1]) - sd); memcpy(body, sd, bl); ql = der_put_tlv(seq, 0x30, body, bl); el = der_put_tlv(ex, 0xa0, seq, ql); memcpy(ob + oidl, ex, el); cil = der_put_tlv(ci, 0x30, ob, oidl + el);
+			r = cms_verify(ci, cil, NULL, 0, NULL, 0, &ct, &cc, &cl, &certs, &certl, &crls, &crll, &sis, &sil); vh_eval(98); if (r == 1) vh_viol("C16:sign:absent-signer-infos-verifies", "\"cms\":\"%s\"", vh_hex(ci, cil > 120 ? 120 : cil));
+			/* third form: certificates left out as well */
+			if (nk >= 5) { bl = (size_t)((MSG + o[3]) - sd); memcpy(body, sd, bl); ql = der_put_tlv(seq, 0x30, body, bl); el = der_put_tlv(ex, 0xa0, seq, ql); memcpy(ob + oidl, ex, el); cil = der_put_tlv(ci, 0x30, ob, oidl + el); r = cms_verify(ci, cil, SCERT[0], SCL[0], NULL, 0, &ct, &cc, &cl, &certs, &certl, &crls, &crll, &sis, &sil); vh_eval(97); if (r == 1) vh_viol("C16:sign:absent-certs-and-signer-infos-verifies", "\"x\":1"); }
 			/* sanity: the same rebuild WITH the original SignerInfos must still verify (the rebuild itself is sound) */ memcpy(body, sd, sl); ql = der_put_tlv(seq, 0x30, body, sl); el = der_put_tlv(ex, 0xa0, seq, ql); memcpy(ob + oidl, ex, el); cil = der_put_tlv(ci, 0x30, ob, oidl + el); r = cms_verify(ci, cil, NULL, 0, NULL, 0, &ct, &cc, &cl, &certs, &certl, &crls, &crll, &sis, &sil); if (r != 1) vh_harness_error("rebuilt one-signer message does not verify");
 		} } } }
 }
